@@ -9,4 +9,5 @@ void shim_end_script(void);
 char *shim_script_report(void);   /* malloc'd JSON object */
 char *shim_ledger_report(void);   /* malloc'd JSON object */
 void shim_arm_fault(int ordinal, int cls, int suppress);
+void shim_stop_matching(void);
 #endif
